@@ -35,11 +35,11 @@ theorem count_ctsTo (s : Sys) (r : Acct) (x : Nat) :
     split <;> simp
 
 section
-variable {accts : List Acct} {groups : List (Nat × List Acct)}
+variable {ex : Bool} {accts : List Acct} {groups : List (Nat × List Acct)}
 
-theorem TInv.accounts {s : Sys} (h : TInv accts groups s) : accounts s = accts := h.2.acc
+theorem TInv.accounts {s : Sys} (h : TInv ex accts groups s) : accounts s = accts := h.2.acc
 
-theorem TInv.client_mem (hn : accts.Nodup) {s : Sys} (h : TInv accts groups s) {p : Acct × Client} (hp : p ∈ s.clients) :
+theorem TInv.client_mem (hn : accts.Nodup) {s : Sys} (h : TInv ex accts groups s) {p : Acct × Client} (hp : p ∈ s.clients) :
     p.1 ∈ accts ∧ getClient s p.1 = p.2 := by
   have hacc : s.clients.map Prod.fst = accts := h.2.acc
   have hnd : keysNodup s.clients := by unfold keysNodup; rw [hacc]; exact hn
@@ -65,7 +65,7 @@ theorem mem_parkedAt {s : Sys} {r : Acct} {st : Stanza} (h : st ∈ parkedAt s r
   exact List.mem_flatMap.mp h
 
 /-- every stanza in the system has undamaged ciphertexts with handed-out nonces, and positive retry counters -/
-theorem TInv.stanza_ok {s : Sys} (h : TInv accts groups s) {st : Stanza} (hst : st ∈ allStanzas s) :
+theorem TInv.stanza_ok {s : Sys} (h : TInv ex accts groups s) {st : Stanza} (hst : st ∈ allStanzas s) :
     CtsOK s.nextCtr st ∧ ∀ id peer part cnt, st = .receipt id peer part (.retry cnt) → 1 ≤ cnt := by
   obtain ⟨a, _, h1 | h1 | h1⟩ := mem_allStanzas hst
   · have := h.2.ups a st h1
@@ -76,7 +76,7 @@ theorem TInv.stanza_ok {s : Sys} (h : TInv accts groups s) {st : Stanza} (hst : 
     obtain ⟨⟨id, im, encs, pl, rfl⟩, h2, _⟩ := (h.2.clients a).parked e he st hse
     exact ⟨h2, fun _ _ _ _ e' => by cases e'⟩
 
-theorem tinv_noCorrupt {s : Sys} (h : TInv accts groups s) : noCorrupt s = true := by
+theorem tinv_noCorrupt {s : Sys} (h : TInv ex accts groups s) : noCorrupt s = true := by
   unfold noCorrupt allCts
   rw [List.all_eq_true]
   intro ct hct
@@ -85,7 +85,7 @@ theorem tinv_noCorrupt {s : Sys} (h : TInv accts groups s) : noCorrupt s = true 
   have := ((h.stanza_ok hst).1 e he).1
   simp [this]
 
-theorem tinv_noncesBelow (hn : accts.Nodup) {s : Sys} (h : TInv accts groups s) : noncesBelow s = true := by
+theorem tinv_noncesBelow (hn : accts.Nodup) {s : Sys} (h : TInv ex accts groups s) : noncesBelow s = true := by
   unfold noncesBelow allCts
   rw [Bool.and_eq_true, List.all_eq_true, List.all_eq_true]
   constructor
@@ -101,7 +101,7 @@ theorem tinv_noncesBelow (hn : accts.Nodup) {s : Sys} (h : TInv accts groups s) 
     rw [Bool.and_eq_true, List.all_eq_true, List.all_eq_true]
     exact ⟨fun e he => by simpa using hcg.seen e he, fun e he => by simpa using hcg.seenSK e he⟩
 
-theorem tinv_unopened {s : Sys} (h : TInv accts groups s) : unopened s = true := by
+theorem tinv_unopened {s : Sys} (h : TInv ex accts groups s) : unopened s = true := by
   unfold unopened
   rw [List.all_eq_true]
   intro r hr
@@ -174,7 +174,7 @@ theorem shapeDown_A {encs : List (Option Acct × Ct)} (h : ShapeA encs) (b : Boo
   · exact absurd hkind hk
 
 section
-variable {accts : List Acct} {groups : List (Nat × List Acct)}
+variable {ex : Bool} {accts : List Acct} {groups : List (Nat × List Acct)}
 
 theorem downShape_bool {id : Nat} {peer : Dest} {part : Option Acct} {im : Bool} {encs : List (Option Acct × Ct)}
     {pl : Option Payload} (h : DownShape (.msg id peer part im encs pl)) :
@@ -195,7 +195,7 @@ theorem downShape_bool {id : Nat} {peer : Dest} {part : Option Acct} {im : Bool}
       · rw [(hl e h1).1]; rfl
       · rw [List.mem_singleton] at h1; subst h1; rfl
 
-theorem tinv_shapes {s : Sys} (h : TInv accts groups s) : shapes s = true := by
+theorem tinv_shapes {s : Sys} (h : TInv ex accts groups s) : shapes s = true := by
   unfold shapes
   rw [List.all_eq_true]
   intro r _
@@ -241,7 +241,7 @@ theorem tinv_shapes {s : Sys} (h : TInv accts groups s) : shapes s = true := by
             exact ⟨this.2.1, this.2.2⟩) hk1 hk2
     | _ => rfl
 
-theorem tinv_conserved {s : Sys} (h : TInv accts groups s) : conserved s = true := by
+theorem tinv_conserved {s : Sys} (h : TInv ex accts groups s) : conserved s = true := by
   unfold conserved
   rw [List.all_eq_true]
   intro p hp
@@ -252,7 +252,7 @@ theorem tinv_conserved {s : Sys} (h : TInv accts groups s) : conserved s = true 
   have := h.2.cons p.1 p.2 hp r hr
   simpa [tokens_eq] using this
 
-theorem tinv_receiptsConserved {s : Sys} (h : TInv accts groups s) : receiptsConserved s = true := by
+theorem tinv_receiptsConserved {s : Sys} (h : TInv ex accts groups s) : receiptsConserved s = true := by
   unfold receiptsConserved
   rw [List.all_eq_true]
   intro p hp
@@ -264,7 +264,7 @@ theorem tinv_receiptsConserved {s : Sys} (h : TInv accts groups s) : receiptsCon
   rw [receiptTokens_eq, shownCount_eq]
   simpa using this
 
-theorem tinv_answerable (hn : accts.Nodup) {s : Sys} (h : TInv accts groups s) : answerable s = true := by
+theorem tinv_answerable (hn : accts.Nodup) {s : Sys} (h : TInv ex accts groups s) : answerable s = true := by
   unfold answerable
   rw [List.all_eq_true]
   intro p hp
@@ -283,7 +283,7 @@ theorem tinv_answerable (hn : accts.Nodup) {s : Sys} (h : TInv accts groups s) :
     rw [List.any_eq_true]
     exact ⟨k, hk, by simpa using hkk⟩
 
-theorem tinv_keptForRetry {s : Sys} (h : TInv accts groups s) : keptForRetry s = true := by
+theorem tinv_keptForRetry {s : Sys} (h : TInv ex accts groups s) : keptForRetry s = true := by
   unfold keptForRetry
   rw [List.all_eq_true]
   intro p hp
@@ -296,7 +296,7 @@ theorem tinv_keptForRetry {s : Sys} (h : TInv accts groups s) : keptForRetry s =
   · have : (getClient s p.1).sentQueue.contains p.2 = true := by simpa using h1
     rw [this]; simp
 
-theorem tinv_receiptsHonest {s : Sys} (h : TInv accts groups s) : receiptsHonest s = true := by
+theorem tinv_receiptsHonest {s : Sys} (h : TInv ex accts groups s) : receiptsHonest s = true := by
   unfold receiptsHonest
   rw [Bool.and_eq_true, List.all_eq_true, List.all_eq_true]
   constructor
@@ -331,7 +331,7 @@ theorem tinv_receiptsHonest {s : Sys} (h : TInv accts groups s) : receiptsHonest
           | some p => simpa [shownCount_eq, whoOf] using h1
     | _ => rfl
 
-theorem tinv_retriesSane (hn : accts.Nodup) {s : Sys} (h : TInv accts groups s) : retriesSane s = true := by
+theorem tinv_retriesSane (hn : accts.Nodup) {s : Sys} (h : TInv ex accts groups s) : retriesSane s = true := by
   unfold retriesSane
   rw [Bool.and_eq_true, Bool.and_eq_true, List.all_eq_true, List.all_eq_true, List.all_eq_true]
   refine ⟨⟨?_, ?_⟩, ?_⟩
@@ -369,7 +369,7 @@ theorem tinv_retriesSane (hn : accts.Nodup) {s : Sys} (h : TInv accts groups s) 
         · simpa using hf
         · simpa using hf
 
-theorem tinv_queueSane (hn : accts.Nodup) {s : Sys} (h : TInv accts groups s) : queueSane s = true := by
+theorem tinv_queueSane (hn : accts.Nodup) {s : Sys} (h : TInv ex accts groups s) : queueSane s = true := by
   unfold queueSane
   rw [List.all_eq_true]
   intro p hp
@@ -401,7 +401,7 @@ theorem tinv_queueSane (hn : accts.Nodup) {s : Sys} (h : TInv accts groups s) : 
     simpa using this
   simp [hnd, hle]
 
-theorem tinv_tokInv (hn : accts.Nodup) {s : Sys} (h : TInv accts groups s) : tokInv s = true := by
+theorem tinv_tokInv (hn : accts.Nodup) {s : Sys} (h : TInv ex accts groups s) : tokInv s = true := by
   unfold tokInv
   rw [tinv_conserved h, tinv_receiptsConserved h, tinv_answerable hn h, tinv_noCorrupt h, tinv_noncesBelow hn h, tinv_unopened h,
     tinv_shapes h, tinv_keptForRetry h, tinv_receiptsHonest h, tinv_retriesSane hn h, tinv_queueSane hn h]
